@@ -127,6 +127,13 @@ func manyFields(seed uint64, n int) core.Fields {
 func buildFlatRow(sp *streamSpec, i int) *core.FlatRow {
 	n := sp.Sizes[i]
 	row := &core.FlatRow{TS: int64(1583064000000000000) + int64(i)}
+	switch {
+	case n == 0: // key with zero dims (empty, non-nil), zero values (empty, non-nil)
+		row.Key, row.Values = bytemap.New(map[string]interface{}{}), []float64{}
+		return row
+	case n < 0: // everything at its zero value except the (empty) key
+		return &core.FlatRow{Key: bytemap.ByteMap{}}
+	}
 	if sp.Shape == "key" {
 		row.Key = bytemap.New(bigKeyMap(sp.Seed, i, n))
 		row.Values = fillFloats(sp.Seed, i, 3)
@@ -145,6 +152,14 @@ type seriesMsg struct {
 func buildSeries(sp *streamSpec, i int) seriesMsg {
 	n := sp.Sizes[i]
 	m := seriesMsg{key: bytemap.New(map[string]interface{}{"i": i, "k": fmt.Sprintf("key-%d", i)})}
+	switch {
+	case n == 0: // points lacking every GROUP BY dimension: key with zero dims, still with series
+		return seriesMsg{key: bytemap.New(map[string]interface{}{}), vals: core.Vals{encoding.Sequence(fill(sp.Seed, i, 17)), nil, encoding.Sequence{}}}
+	case n == -1: // empty key, empty Vals
+		return seriesMsg{key: bytemap.ByteMap{}, vals: core.Vals{}}
+	case n < -1: // empty key, nil Vals
+		return seriesMsg{key: bytemap.ByteMap{}}
+	}
 	switch sp.Shape {
 	case "many-fields":
 		raw := fill(sp.Seed, i, n)
@@ -166,6 +181,12 @@ func buildSeries(sp *streamSpec, i int) seriesMsg {
 }
 
 func buildPoint(sp *streamSpec, i int) *rpc.Point {
+	switch n := sp.Sizes[i]; {
+	case n == 0:
+		return &rpc.Point{Data: []byte{}, Offset: wal.NewOffset(int64(i+1), 0)}
+	case n < 0:
+		return &rpc.Point{}
+	}
 	return &rpc.Point{Data: fill(sp.Seed, i, sp.Sizes[i]), Offset: wal.NewOffset(int64(i+1), int64(sp.Sizes[i]))}
 }
 
@@ -178,6 +199,14 @@ type insertMsg struct {
 func buildInsert(sp *streamSpec, i int) insertMsg {
 	n := sp.Sizes[i]
 	m := insertMsg{ts: time.Unix(1583064000, int64(i+1)).UTC()}
+	switch {
+	case n == 0: // no dims: the server refuses it ("Need at least one dim"), the stream goes on
+		m.dims, m.vals = map[string]interface{}{}, map[string]interface{}{"v": 1.0}
+		return m
+	case n < 0: // no vals: refused as well
+		m.dims, m.vals = map[string]interface{}{"i": i}, map[string]interface{}{}
+		return m
+	}
 	if sp.Shape == "vals" {
 		m.dims = map[string]interface{}{"i": i}
 		m.vals = map[string]interface{}{}
@@ -199,10 +228,16 @@ func canonRow(r *core.FlatRow) string {
 		return "<nil row>"
 	}
 	var sb strings.Builder
-	if len(r.Key) > 64 {
+	switch {
+	case r.Key == nil:
+		fmt.Fprintf(&sb, "ts=%d key=nil vals=%d:", r.TS, len(r.Values))
+	case len(r.Key) > 64:
 		fmt.Fprintf(&sb, "ts=%d key=(%s) vals=%d:", r.TS, hashBytes(r.Key), len(r.Values))
-	} else {
+	default:
 		fmt.Fprintf(&sb, "ts=%d key=%x vals=%d:", r.TS, []byte(r.Key), len(r.Values))
+	}
+	if r.Values == nil {
+		sb.WriteString("nil-values ")
 	}
 	h := uint64(1469598103934665603)
 	for _, v := range r.Values {
@@ -247,16 +282,28 @@ func hashBytes(b []byte) string {
 	for _, c := range b {
 		h = (h ^ uint64(c)) * 1099511628211
 	}
+	if b == nil {
+		return "nil"
+	}
 	return fmt.Sprintf("%d bytes #%x", len(b), h)
 }
 
 func canonSeries(m seriesMsg) string {
 	var sb strings.Builder
 	fmt.Fprintf(&sb, "key=%s vals=%d", hashBytes(m.key), len(m.vals))
+	if m.vals == nil {
+		sb.WriteString(" (nil)")
+	}
+	all := ""
 	for i, v := range m.vals {
+		hv := hashBytes(v)
 		if i < 3 {
-			fmt.Fprintf(&sb, " [%s]", hashBytes(v))
+			fmt.Fprintf(&sb, " [%s]", hv)
 		}
+		all += hv + ";"
+	}
+	if len(m.vals) > 3 {
+		fmt.Fprintf(&sb, " all:%s", hashBytes([]byte(all)))
 	}
 	return sb.String()
 }
@@ -277,6 +324,10 @@ func seqDiff(what string, sent, got []string) string {
 			continue
 		}
 		where := "matches no message that was sent (content mixed or corrupted)"
+		strip := strings.NewReplacer("nil-values ", "", " (nil)", "", "key=nil", "key=", "[nil]", "[0 bytes #14650fb0739d0383]", "key=0 bytes #14650fb0739d0383", "key=")
+		if strip.Replace(sent[i]) == strip.Replace(got[i]) {
+			where = "differs ONLY in nil versus empty-but-non-nil (a value at the boundary between empty and absent)"
+		}
 		for j, s := range sent {
 			if s == got[i] {
 				where = fmt.Sprintf("is message %d (reordered or duplicated)", j)
@@ -441,7 +492,11 @@ func (env *streamEnv) run(sp *streamSpec, key string) (out streamOutcome) {
 	}
 	switch sp.Kind {
 	case "query-rows":
-		src := &stubSource{fields: manyFields(sp.Seed, sp.Head), stats: &common.QueryStats{NumPartitions: 3, NumSuccessfulPartitions: 2, LowestHighWaterMark: 5, HighestHighWaterMark: 9, MissingPartitions: []int{1}}}
+		qfields := manyFields(sp.Seed, sp.Head)
+		if sp.Head <= 0 {
+			qfields = core.Fields{}
+		}
+		src := &stubSource{fields: qfields, stats: &common.QueryStats{NumPartitions: 3, NumSuccessfulPartitions: 2, LowestHighWaterMark: 5, HighestHighWaterMark: 9, MissingPartitions: []int{1}}}
 		sent := make([]string, n)
 		for i := 0; i < n; i++ {
 			r := buildFlatRow(sp, i)
@@ -456,7 +511,7 @@ func (env *streamEnv) run(sp *streamSpec, key string) (out streamOutcome) {
 			streamErr("query", err)
 			return
 		}
-		if strings.Join(md.FieldNames, ",") != strings.Join(src.fields.Names(), ",") {
+		if strings.Join(md.FieldNames, ",") != strings.Join(src.fields.Names(), ",") || (md.FieldNames == nil) != (src.fields.Names() == nil) {
 			out.diff = fmt.Sprintf("QueryMetaData.FieldNames: %d names sent, %d received, or contents differ", len(src.fields), len(md.FieldNames))
 			return
 		}
@@ -483,6 +538,9 @@ func (env *streamEnv) run(sp *streamSpec, key string) (out streamOutcome) {
 	case "remote-flat", "remote-unflat":
 		unflat := sp.Kind == "remote-unflat"
 		fields := manyFields(sp.Seed, sp.Head)
+		if sp.Head <= 0 {
+			fields = core.Fields{} // a field list with zero fields, non-nil
+		}
 		stats := &common.QueryStats{NumPartitions: 1, NumSuccessfulPartitions: 1, LowestHighWaterMark: int64(sp.Seed >> 8), HighestHighWaterMark: math.MaxInt64}
 		rows := make([]*core.FlatRow, n)
 		series := make([]seriesMsg, n)
@@ -564,7 +622,32 @@ func (env *streamEnv) run(sp *streamSpec, key string) (out streamOutcome) {
 				got = append(got, canonRow(g))
 			}
 		}
-		if fieldsString(gotFields) != fieldsString(fields) {
+		if gotQuery.SQLString != key || !gotQuery.IsSubQuery || gotQuery.Unflat != unflat || !gotQuery.IncludeMemStore ||
+			!sameJSON(canon(gotQuery.SubQueryResults), canon(subq)) {
+			out.diff = fmt.Sprintf("the follower received another query than the leader sent (sent SQLString=%q IsSubQuery=true Unflat=%v IncludeMemStore=true SubQueryResults=%v): %+v", key, unflat, subq, gotQuery)
+			return
+		}
+		// the message kind the leader infers: queryCluster (cluster_query.go) tells the messages
+		// of a partition apart by `fields != nil`, `key != nil`, `flatRow != nil`; a message
+		// with none of them is taken for the partition's final result (its rows so far are
+		// all the leader waits for: the rest is dropped without an error)
+		kind := ""
+		if gotFields == nil && herr == nil {
+			kind = "the field list arrives as nil"
+		}
+		for i, g := range gotSeries {
+			if g.key == nil && i < len(series) && series[i].key != nil && kind == "" {
+				kind = fmt.Sprintf("unflat row %d of %d (key with %d bytes, %d series) arrives with Key == nil", i, n, len(series[i].key), len(series[i].vals))
+			}
+		}
+		for i, g := range gotRows {
+			if g == nil && kind == "" {
+				kind = fmt.Sprintf("flat row %d of %d arrives as a nil Row", i, n)
+			}
+		}
+		if kind != "" {
+			out.diff = kind + ": queryCluster takes that message for the END of the partition's results, the remaining rows are dropped and no error is reported"
+		} else if fieldsString(gotFields) != fieldsString(fields) || (gotFields == nil) != (fields == nil) {
 			out.diff = fmt.Sprintf("field list received by the leader differs: %d fields sent, %d received", len(fields), len(gotFields))
 		} else if d := seqDiff("row", sent, got); d != "" {
 			out.diff = d
@@ -581,11 +664,6 @@ func (env *streamEnv) run(sp *streamSpec, key string) (out streamOutcome) {
 		}
 		if ferr != nil {
 			streamErr("remote query, follower side", ferr)
-			return
-		}
-		if gotQuery.SQLString != key || !gotQuery.IsSubQuery || gotQuery.Unflat != unflat || !gotQuery.IncludeMemStore ||
-			!sameJSON(canon(gotQuery.SubQueryResults), canon(subq)) {
-			out.diff = fmt.Sprintf("the follower received another query than the leader sent: %+v", gotQuery)
 			return
 		}
 		if hs, ok := hstats.(*common.QueryStats); !ok || !sameJSON(canon(hs), canon(stats)) {
@@ -643,7 +721,8 @@ func (env *streamEnv) run(sp *streamSpec, key string) (out streamOutcome) {
 
 	case "insert":
 		msgs := make([]insertMsg, n)
-		sent := make([]string, n)
+		var sent []string
+		refused := map[int]string{}
 		for i := range msgs {
 			msgs[i] = buildInsert(sp, i)
 		}
@@ -667,7 +746,14 @@ func (env *streamEnv) run(sp *streamSpec, key string) (out streamOutcome) {
 				streamErr(fmt.Sprintf("insert %d", i), err)
 				return
 			}
-			sent[i] = fmt.Sprintf("ts=%d dims=%s vals=%s", m.ts.UnixNano(), hashBytes(bytemap.New(m.dims)), hashBytes(bytemap.New(m.vals)))
+			switch {
+			case len(m.dims) == 0:
+				refused[i] = "Need at least one dim"
+			case len(m.vals) == 0:
+				refused[i] = "Need at least one val"
+			default:
+				sent = append(sent, fmt.Sprintf("ts=%d dims=%s vals=%s", m.ts.UnixNano(), hashBytes(bytemap.New(m.dims)), hashBytes(bytemap.New(m.vals))))
+			}
 		}
 		report, err := ins.Close()
 		env.db.mu.Lock()
@@ -688,8 +774,8 @@ func (env *streamEnv) run(sp *streamSpec, key string) (out streamOutcome) {
 			streamErr("closing the inserter", err)
 			return
 		}
-		if report.Received != n || report.Succeeded != n || len(report.Errors) != 0 {
-			out.diff = fmt.Sprintf("InsertReport %+v for %d inserts", report, n)
+		if report.Received != n || report.Succeeded != n-len(refused) || !sameJSON(canon(report.Errors), canon(refused)) {
+			out.diff = fmt.Sprintf("InsertReport %+v for %d inserts of which %v must be refused", report, n, refused)
 		}
 	default:
 		out.infra = fmt.Errorf("unknown stream kind %q", sp.Kind)
@@ -716,7 +802,23 @@ func genStreamSpec(seed, idx uint64) *streamSpec {
 		return hk.Pick(r, []int{r.Range(20000, 40000), r.Range(40000, 100000), r.Range(100000, 200000)})
 	}
 	k := r.Range(4, 9)
-	switch idx / uint64(len(streamKinds)) % 4 {
+	switch idx / uint64(len(streamKinds)) % 5 {
+	case 4: // values at the boundary between "empty" and "absent", in every position:
+		// first, middle, right before the end-of-stream message, and next to large ones
+		edge := func() int { return hk.Pick(r, []int{0, 0, -1, -2}) }
+		sp.Sizes = []int{edge(), tiny(), big(), edge(), mid(), edge()}
+		if r.Bool() {
+			sp.Sizes = append([]int{tiny()}, sp.Sizes...)
+		}
+		if r.Chance(1, 3) {
+			sp.Sizes = append(sp.Sizes, tiny())
+		}
+		if r.Chance(1, 2) {
+			sp.Head = 0 // empty field list / no field names / minimal Follow request
+		} else {
+			sp.Head = r.Range(50, 400)
+		}
+		return sp
 	case 0: // equal-size large messages back to back: a mix-up decodes without error
 		b := big()
 		for i := 0; i < k; i++ {
@@ -759,6 +861,8 @@ func genStreamSpec(seed, idx uint64) *streamSpec {
 
 func sizeClass(n int) string {
 	switch {
+	case n <= 0:
+		return "boundary(empty/zero)"
 	case n < 1000:
 		return "<1KB"
 	case n < 16384:
